@@ -162,6 +162,19 @@ Theorem C14_dispatch_total_unsigned :
 Proof. exact udispatch_total. Qed.
 Print Assumptions C14_dispatch_total_unsigned.
 
+(* A decoder that validates after the dispatch (the proposed repair) returns only usable values. *)
+Theorem C14_dispatch_validated_usable :
+  forall V (sdec : stype -> bytes -> option V) (usable : V -> bool) d b t v,
+  validated V usable (sdispatch V sdec d b) = Some (t, v) ->
+  In t (sallowed d) /\ sdec t b = Some v /\ usable v = true.
+Proof.
+  intros V sdec usable d b t v H.
+  exact (match validated_usable V usable _ t v H with
+         | conj H1 H2 => match sdispatch_sound V sdec d b t v H1 with conj A B => conj A (conj B H2) end
+         end).
+Qed.
+Print Assumptions C14_dispatch_validated_usable.
+
 (* ---- deterministic: encoding is a function of the value; for sets, of the map and not of the order
         in which Go's map iteration lists it, hence equal sets give equal consensus hashes -------- *)
 Theorem C14_encode_deterministic :
